@@ -86,9 +86,9 @@ static sqf::runtime::runtime::result execute_do(sqf::runtime::runtime& runtime, 
             // Pop the actual frame
             context_active.pop_frame();
 
-            // Readd return value of frame if it had one
-            if (val.has_value())
-            { context_active.push_value(val.value()); }
+            // A finished frame contributes exactly one value to its caller:
+            // the value of its last statement, or nil if there is none.
+            context_active.push_value(val.has_value() ? val.value() : sqf::runtime::value{});
 
             // Restart loop-run
             continue;
